@@ -5,6 +5,7 @@ CONSTANTS
   MaxFaults = 2
   MaxDone = 1
   AllowKill = TRUE
+  BadSignals = {"healthy", "done"}
   FaultKinds = {"err", "nil", "canceled"}
 INVARIANTS
   TypeOK
